@@ -77,6 +77,33 @@ CHECKS.update({
         design_ref="6/C07"),
 })
 
+CHECKS.update({
+    "C08": dict(
+        text="Theorems on the translated fluid.py/gas.py: the builder column and the stand-alone transform are the same list "
+             "(linearity of the cumulative trapezoid), zero first entry, strictly increasing for positive columns on increasing "
+             "pressures, additive over adjacent rows; the quadrature route is the quadrature oracle applied to 2p/(mu Z), and under "
+             "the oracle's contract (Riemann integral) is zero at the reference, Chasles-additive and strictly increasing for a "
+             "positive continuous integrand. Agreement of the adaptive-quadrature route with the table routes is validated "
+             "numerically (tolerance from the table's own h^2/12 f'' estimate).",
+        technique="Coq proof (list induction on the trapezoid rule, Coquelicot RInt) over py2coq-translated model; numeric three-way comparison",
+        design_ref="6/C08"),
+    "C12": dict(
+        text="Theorems for all inputs on the translated oil.py: GOR inverts the bubble-point correlation in both directions, is "
+             "continuous at p_b, equals the initial GOR at and above it, is non-decreasing; Bo is continuous at p_b and increasing "
+             "below it; viscosity is continuous at p_b. Remaining ordering/positivity clauses (Bo falling above p_b, c_o>0, mu>0, mu "
+             "falling below p_b) are checked on the sampled box only. Kernel-certified point evaluation ties the model to the code.",
+        technique="Coq proof (Rpower algebra, monotonicity) over py2coq-translated model + certified point evaluation",
+        design_ref="6/C12"),
+    "C19": dict(
+        text="Each translated Fluid method is proved equal to the map of the intended stand-alone correlation with the intended "
+             "attributes (the statement carries the wiring); build_pvt_gas is proved equal, row by row, to the correlations at the "
+             "Sutton pseudocritical point over arange(10, max, 10), whose elements are proved to be 10 + 10k < max; Sutton's "
+             "correlation reduces to the hydrocarbon-only one without contaminants, is unchanged by a zero-fraction extra component, "
+             "and an unknown fluid type returns the error value. The implementation is compared with direct calls on random inputs.",
+        technique="Coq proof (reflexivity/field on py2coq-translated facade and builder) + differential comparison",
+        design_ref="6/C19"),
+})
+
 NOT_APPLICABLE = {}
 
 
